@@ -3,6 +3,7 @@
 -/
 import Fx.Render
 import Fx.FrontDriver
+import Fx.Cli
 namespace Fx
 
 inductive GenRes where
@@ -40,5 +41,22 @@ def genRequest (f : List String) : String :=
        | .outOfFuel => "out-of-fuel")
     | none => "bad-op"
   | _ => "bad-op"
+
+/-- `cli argv0-hex item…` with item = `G:<hex text>` | `E` | `U` | `P`; reply `exit=<n> stdout=<hex>` -/
+def cliRequest (f : List String) : String :=
+  match f with
+  | argv0 :: items =>
+    let outcome (s : String) : Option FileOutcome :=
+      if s == "E" then some .rejected
+      else if s == "U" then some .unreadable
+      else if s == "P" then some .panicked
+      else if s.startsWith "G:" then (textOfHex (s.drop 2).toString).map .generated
+      else none
+    (match textOfHex argv0, items.mapM outcome with
+     | some a0, some os =>
+       let (out, code) := cli a0 os
+       "exit=" ++ toString code ++ " stdout=" ++ hexOfString out
+     | _, _ => "bad-op")
+  | [] => "bad-op"
 
 end Fx
